@@ -26,6 +26,9 @@ NAMES = ["a.txt", "b", "c.html", "d.txt"]
 FAULTS = ["stat-ENOENT", "stat-EACCES", "stat-ELOOP", "fifo", "socket", "dotdot-name",
           "dot-named stat-ENOENT", "dot-named stat-EACCES", "dot-named stat-ELOOP", "dot-named fifo", "dot-named socket"]
 NF = len(FAULTS)
+# names for the unservable entry: they sit on handler-selection predicates (extensions the handlers
+# look at) or contain characters that matter to message formatting
+FNAMES = [None, "x.gophermap", "r100%.txt", "%s%d", "q?x", "m.zip", "n.mbox", "t.html.tal", "p.pyg", "g.gz", "a b"]
 
 
 def _healthy_node(name):
@@ -36,8 +39,9 @@ def _healthy_node(name):
     return mv.File(b"hello\n")
 
 
-def _build(n, faults):
-    """faults: list of (index, kind).  Returns (nodes, healthy selectors in pool order, listed names)."""
+def _build(n, faults, fname=None):
+    """faults: list of (index, kind); fname: another name for the FIRST faulty entry.
+    Returns (nodes, healthy selectors in pool order, listed names)."""
     nodes = {"/": mv.Dir(["d"]), "/d/b/inner.txt": mv.File(b"x")}
     listed = []
     healthy = []
@@ -47,6 +51,8 @@ def _build(n, faults):
         for (fi, fk) in faults:
             if fi == idx:
                 kind = fk
+        if fname is not None and faults and faults[0][0] == idx:
+            name = fname
         if kind >= 6:
             # a dot-named unservable entry (an editor's `.#name` lock link, a socket `.s`): the UMN handler reads dot-files as link files
             name = "." + name
@@ -72,12 +78,14 @@ def _build(n, faults):
     return nodes, healthy
 
 
-def _listing(umn, nodes):
+def _listing(umn, nodes, reallog=False):
     from pygopherd.handlers import UMN, dir as dirmod
 
     cfg = dl.config()
     vfs = mv.MemVFS(cfg, nodes)
     dl.install_dir_env(vfs, 5000, dl.PickleStub())
+    if reallog:
+        hx.real_exception_log()  # the message for the skipped entry is built by the real code
     try:
         cls = UMN.UMNDirHandler if umn else dirmod.DirHandler
         proto = hx.ns(server=hx.make_server(cfg), requesthandler=hx.make_rh(False), config=cfg)
@@ -95,16 +103,16 @@ for _umn in (False, True):
         REF[(_umn, _n)] = _listing(_umn, _build(_n, [])[0])
 
 
-def body_prepare(umn: bool, n: int, i: int, f: int, j: int, g: int) -> bool:
+def body_prepare(umn: bool, n: int, i: int, f: int, j: int, g: int, nm: int = 0) -> bool:
     faults = [(i, f)]
     if j >= 0:
         faults.append((j, g))
-    nodes, healthy = _build(n, faults)
+    nodes, healthy = _build(n, faults, FNAMES[nm])
     try:
-        got = _listing(umn, nodes)
+        got = _listing(umn, nodes, reallog=(nm != 0))
     except Exception as e:
         raise hx.Violation("C12:listing-failed:%s" % type(e).__name__,
-                           "%s n=%d faults=%r: %r" % ("UMN" if umn else "Dir", n, [(a, FAULTS[b]) for a, b in faults], e))
+                           "%s n=%d faults=%r name=%r: %r" % ("UMN" if umn else "Dir", n, [(a, FAULTS[b]) for a, b in faults], FNAMES[nm], e))
     hx.reach()
     ref = [s for s in REF[(umn, n)] if s in healthy]
     sub = [s for s in got if s in healthy]
@@ -113,13 +121,15 @@ def body_prepare(umn: bool, n: int, i: int, f: int, j: int, g: int) -> bool:
     return True
 
 
-def body_protocol(p: int, i: int, f: int) -> bool:
+def body_protocol(p: int, i: int, f: int, nm: int = 0) -> bool:
     """Same through each protocol's real handle(): a success status and every healthy name."""
     n = 3
-    nodes, healthy = _build(n, [(i, f)])
+    nodes, healthy = _build(n, [(i, f)], FNAMES[nm])
     cfg = dl.config()
     vfs = mv.MemVFS(cfg, nodes)
     dl.install_dir_env(vfs, 5000, dl.PickleStub())
+    if nm != 0:
+        hx.real_exception_log()
     w = hx.ListWriter()
     try:
         proto = dl.make_protocol(p, "/d", cfg, w)
@@ -159,6 +169,16 @@ def obligations(tier, seed):
                     timeout=240 if tier == "quick" else 900,
                     functions=["handlers.dir.DirHandler.prepare/prep_initfiles/prep_entries", "handlers.UMN.UMNDirHandler.prepare", "HandlerMultiplexer.getHandler"],
                 ))
+    for umn in (False, True):
+        obs.append(Ob(id="C12.3-names[%s]" % ("UMN" if umn else "Dir"), body="harness.C12:body_prepare", sig="umn: bool, n: int, i: int, f: int, j: int, g: int, nm: int",
+                      pre=["umn == %s" % umn, "n == 3", "0 <= i < 3", "0 <= f < %d" % NF, "j == -1", "g == 0", "1 <= nm < %d" % len(FNAMES)], timeout=300 if tier == "quick" else 900,
+                      desc="real %s.prepare: one unservable entry at a symbolic position, of symbolic kind, carrying a symbolic one of the names %r (extensions the handlers key on, format characters): the listing succeeds with every healthy child"
+                           % ("UMNDirHandler" if umn else "DirHandler", FNAMES[1:]),
+                      bounds="3 positions x %d fault kinds x %d names (symbolic)" % (NF, len(FNAMES) - 1), functions=["handlers.*.canhandlerequest (all handlers of the list, on an entry whose stat failed)", "GopherExceptions.FileNotFound", "DirHandler.prep_entries"]))
+    obs.append(Ob(id="C12.3b-names-protocols", body="harness.C12:body_protocol", sig="p: int, i: int, f: int, nm: int",
+                  pre=["0 <= p <= 6", "i == 1", "f == 0 or f == 3 or f == 5", "1 <= nm < %d" % len(FNAMES)], timeout=300,
+                  desc="each protocol's real handle() with one unservable entry carrying a symbolic one of the special names: success status and every healthy name",
+                  bounds="7 protocol forms x 3 fault kinds x %d names (symbolic)" % (len(FNAMES) - 1), functions=["protocols.*.handle"]))
     obs.append(Ob(
         id="C12.2-protocols",
         body="harness.C12:body_protocol",
